@@ -119,6 +119,58 @@ def _multipart(ctx: Ctx, rng):
     ctx.count("multipart", f)
 
 
+def _levels_and_arrow(ctx: Ctx, rng):
+    """the recorded level list governs follow-up data for C(x, levels=...) and for dictionary-encoded Arrow columns, like for plain factors:
+    lost levels keep their (zero) columns, gained levels are announced with a DataMismatchWarning and give zero rows, the columns never change"""
+    import numpy as np
+    import pandas as pd
+    import pyarrow as pa
+    from formulaic import model_matrix
+    from formulaic.errors import DataMismatchWarning
+    train = ["a", "b", "c", "c", "a", "b"]          # first appearances in sorted order: an Arrow dictionary then declares a, b, c
+    xs = [float(k) for k in range(6)]
+    form = rng.choice(["C(g, levels=['a', 'b', 'c']) + x", "g + x", "C(g) + x", "C(g, contr.sum, levels=['c', 'a', 'b']) + x", "0 + g", "g:x"])
+    route = rng.choice(["pandas", "arrow-dictionary", "arrow-string", "narwhals-pandas"])
+    event = rng.choice(["lost", "gained", "both", "same"])
+    new_g = {"lost": ["c", "a", "c", "a"], "gained": ["a", "b", "d", "c"], "both": ["a", "d", "a", "d"], "same": ["b", "c", "a", "b"]}[event]
+    new_x = [1.0, 2.0, 3.0, 4.0]
+
+    def mk(g, x):
+        df = pd.DataFrame({"g": pd.Series(g, dtype=object), "x": x})
+        if route == "arrow-dictionary":
+            return pa.table({"g": pa.array(g).dictionary_encode(), "x": pa.array(x)})
+        if route == "arrow-string":
+            return pa.table({"g": pa.array(g), "x": pa.array(x)})
+        return df
+    kw = {"materializer": "narwhals"} if route == "narwhals-pandas" else {}
+    rp = {"kind": "levels-arrow", "formula": form, "route": route, "event": event, "new": new_g}
+    ctx.oracle_runs += 1
+    try:
+        mm = model_matrix(form, mk(train, xs), **kw)
+        names = list(mm.model_spec.column_names)
+        with warnings.catch_warnings(record=True) as wl:
+            warnings.simplefilter("always")
+            mm2 = mm.model_spec.get_model_matrix(mk(new_g, new_x))
+        warned = any(issubclass(w.category, DataMismatchWarning) for w in wl)
+    except Exception as e:
+        ctx.fail(f"{form!r} via {route}: fit on {train}, re-use on {new_g}: {type(e).__name__}: {e}", rp)
+        return
+    if list(mm2.model_spec.column_names) != names:
+        ctx.fail(f"{form!r} via {route}: re-use on {new_g} changed the columns to {list(mm2.model_spec.column_names)} (recorded {names})", rp)
+        return
+    if event in ("gained", "both") and not warned:
+        ctx.fail(f"{form!r} via {route}: the unseen level 'd' in {new_g} was not announced with a DataMismatchWarning", rp)
+    # the same request through the reference route: pandas object columns
+    ref = model_matrix(form, pd.DataFrame({"g": pd.Series(train, dtype=object), "x": xs}))
+    with warnings.catch_warnings():
+        warnings.simplefilter("ignore")
+        ref2 = ref.model_spec.get_model_matrix(pd.DataFrame({"g": pd.Series(new_g, dtype=object), "x": new_x}))
+    a, b = np.asarray(mm2, dtype=float), np.asarray(ref2, dtype=float)
+    if a.shape != b.shape or not np.allclose(a, b, atol=1e-12, equal_nan=True):
+        ctx.fail(f"{form!r} via {route}: re-use on {new_g} gives {a.tolist()}, plain pandas text columns give {b.tolist()}", rp)
+    ctx.count("levels-arrow", f"{route}/{event}")
+
+
 def run(ctx: Ctx):
     from formulaic import model_matrix
     from formulaic.errors import FactorEncodingError, DataMismatchWarning
@@ -194,6 +246,8 @@ def run(ctx: Ctx):
             ctx.sample({k: rp[k] for k in ("terms", "events", "implementation")})
     for _ in range(ctx.n(60, 600)):
         _multipart(ctx, rng)
+    for _ in range(ctx.n(80, 800)):
+        _levels_and_arrow(ctx, rng)
     ctx.run_cases("pairs", c04.RIMPORTS, "", "rcase", "chk_replay", lits, descr, shard=150)
 
 
